@@ -225,7 +225,8 @@ def tlc_trace(family, module, cfg, trace, timeout=3600, tag=None, heap="4g", def
     has_reset = False
     with open(trace) as f:
         for line in f:
-            is_reset = line.startswith('{"ev":"reset"') or '"ev":"reset"' in line[:200]
+            # keys are written in sorted order: a big "case" object may precede "ev"
+            is_reset = '"ev":"reset"' in line
             has_reset = has_reset or is_reset
             if cur and cur_bytes >= CHUNK_BYTES and (is_reset or not has_reset):
                 parts.append(cur)
